@@ -23,7 +23,7 @@ RULE = ("2-3 real threads x 1-3 buffered mutators (setitem, delitem, pop, update
         "thread leaves the context every file's content (and every recorded result) is explained by SOME sequential "
         "order of the operations applied to that file, and get_current_buffer_size()==0. Fault kinds: preemption, "
         "forced_flush. Non-trivial = >=1 switch inside an operation; distinct = (shape, capacity class, switch sites).")
-ASSUMPTIONS = c09.ASSUMPTIONS + ["no read operations are generated (reads next to writers are C14; with forced flushes they hit the open finding C14-F3)"]
+ASSUMPTIONS = c09.ASSUMPTIONS + ["reads are generated only on a file AND object that no other thread uses (as C13 states); reads on files other threads write are C14"]
 COMPONENTS = c09.COMPONENTS
 EXPECT_PROBES = {"quick": ["preempt_in_op", "lock_contended", "small_capacity_runs"], "thorough": ["preempt_in_op", "lock_contended", "small_capacity_runs"]}
 
@@ -94,6 +94,26 @@ def build(seed, i, tier):
                 name, args = ("setitem", ["x", fresh.int()]) if k == "dict" else ("append", [fresh.int()])
             ops.append({"h": h, "name": name, "args": args})
         progs.append(ops)
+    # optional READER thread on a file (and object) that no other thread uses (C13 allows exactly these reads); with a small
+    # capacity its first buffered access forces the flush of the files the other threads are modifying
+    in_ctx_ops = []
+    if rs.random() < 0.35:
+        rinit = _thr.init_content(kind, fresh)
+        inits.append(rinit)
+        pre.insert(nres, {"t": "new_res", "family": fam, "kind": kind, "init": rinit})
+        # (resources are created before objects in `pre`; append the private object last so earlier ids are unchanged)
+        pre.append({"t": "new_obj", "rid": nres, "wc": cfg["wc"]})
+        rh = len(hpaths)
+        ropsn = rs.choice([1, 2])
+        progs.append([dict(zip(("name", "args"), _thr.gen_thread_op(rs, fresh, kind, rinit, readers=True)), h=rh, reader=True) for _ in range(ropsn)])
+        hpaths.append([])
+        hrid.append(nres)
+        private_reader = True
+        # the main thread writes to some shared files inside the context first, so that modified entries exist
+        for o in range(nobj):
+            if rs.random() < 0.6:
+                k0 = "dict" if isinstance(inits[obj_rid[o]], dict) else "list"
+                in_ctx_ops.append({"h": o, "name": "setitem" if k0 == "dict" else "append", "args": (["pre%d" % o, fresh.int()] if k0 == "dict" else [fresh.int()])})
     doc = len(seams.REAL["dumps"](inits[0]))
     if cfg["strategy"] == "serialized":
         cap = rs.choice([None, None, 0, 1, doc + 10, 2 * doc + 20])
@@ -109,8 +129,13 @@ def build(seed, i, tier):
         rs.shuffle(order)
         strat = {"kind": "single", "first": order[0], "k": rs.randrange(0, rs.choice([60, 200, 500])), "order": order}
     ctx = [{"kind": "backend", "family": fam, "rkind": kind, "cap": cap}]
+    nthreads = len(progs)
+    if strat["kind"] == "single":
+        order = [f"T{x}" for x in range(nthreads)]
+        rs.shuffle(order)
+        strat = {"kind": "single", "first": order[0], "k": strat["k"], "order": order}
     return {"cfg": cfg, "pre": pre, "progs": progs, "strat": strat, "sched_seed": f"{seed}/{ID}/{i}", "shape": shape,
-            "ctx": ctx, "cap": cap}
+            "ctx": ctx, "cap": cap, "in_ctx_ops": in_ctx_ops}
 
 
 def judge(payload, out):
@@ -139,7 +164,8 @@ def judge(payload, out):
 
 
 def run_payload(payload):
-    out = _thr.execute(payload["cfg"], payload["progs"], payload["strat"], payload["sched_seed"], payload["pre"], payload.get("ctx"))
+    out = _thr.execute(payload["cfg"], payload["progs"], payload["strat"], payload["sched_seed"], payload["pre"], payload.get("ctx"),
+                       in_ctx_ops=payload.get("in_ctx_ops"))
     return out, judge(payload, out)
 
 
